@@ -1,6 +1,7 @@
 import NdnProofs.Lemmas.Svs
 import NdnProofs.Lemmas.SvsBytes
 import NdnProofs.Lemmas.SvsReach
+import NdnProofs.Lemmas.SvsX
 /-!
 # C18 — State-vector sync merges monotonically and announces exactly when needed
 
@@ -200,6 +201,25 @@ theorem runG_fst (s : State) (heard : Bytes → Nat) (evs : List Ev) :
   | nil => simp [runG, run]
   | cons e r ih => simp only [runG, run]; exact ih _ _
 
+/-- the decision at the end of a suppression period, from the invariants: well-formed state, `agg_sv` = ghost -/
+theorem suppression_emit_of_inv (s : State) (heard : Bytes → Nat) (hwf : WF s) (hinv : HeardInv s heard)
+    (hsup : s.suppress = true) :
+    ((step s .timer).2 = [Out.emit s.loc] ↔ ∃ k, heard k < vget s.loc k) ∧
+    ((step s .timer).2 = [Out.emit s.loc] ∨ (step s .timer).2 = []) := by
+  have hn := necessary_iff s.loc s.agg hwf.1
+  simp only [step, hsup, if_true]
+  constructor
+  · constructor
+    · intro he
+      have : necessary s.loc s.agg = true := by
+        cases hc : necessary s.loc s.agg <;> simp_all
+      obtain ⟨k, hk⟩ := hn.mp this
+      exact ⟨k, by rw [← hinv hsup k]; exact hk⟩
+    · rintro ⟨k, hk⟩
+      have : necessary s.loc s.agg = true := hn.mpr ⟨k, by rw [hinv hsup k]; exact hk⟩
+      simp [this]
+  · split <;> simp
+
 /-- **suppression_emit_iff.** After any event history from the initial state, when the timer ends a
     suppression period a sync Interest (carrying the full local vector) is emitted if and only if
     the local vector is newer in some entry than the merge of the vectors heard in that period;
@@ -215,19 +235,7 @@ theorem suppression_emit_iff (selfId : Bytes) (seq0 : Nat) (evs : List Ev) :
   have hwf : WF s := by
     have := wf_run (init selfId seq0) evs (by simp [WF, init, PyDict.keys, vget, PyDict.get?])
     rw [← runG_fst _ (fun _ => 0)] at this; exact this
-  have hn := necessary_iff s.loc s.agg hwf.1
-  simp only [step, hsup, if_true]
-  constructor
-  · constructor
-    · intro he
-      have : necessary s.loc s.agg = true := by
-        cases hc : necessary s.loc s.agg <;> simp_all
-      obtain ⟨k, hk⟩ := hn.mp this
-      exact ⟨k, by rw [← hinv hsup k]; exact hk⟩
-    · rintro ⟨k, hk⟩
-      have : necessary s.loc s.agg = true := hn.mpr ⟨k, by rw [hinv hsup k]; exact hk⟩
-      simp [this]
-  · split <;> simp
+  exact suppression_emit_of_inv s heard hwf hinv hsup
 
 /-! ### the byte-level half: vectors as the bytes of the name component
 
@@ -656,5 +664,462 @@ example : Reachable (runB (init [7, 4, 8, 2, 110, 48] 1)
 example : (runB (init [7, 4, 8, 2, 110, 48] 1)
     [.raw [0xff, 0, 1], .raw [0xc9, 11, 0xca, 9, 7, 4, 8, 2, 110, 49, 0xcc, 1, 2], .ev .publish, .ev .timer]).loc
     = [([7, 4, 8, 2, 110, 48], 2), ([7, 4, 8, 2, 110, 49], 2)] := by rfl
+
+end Ndn.C18
+
+namespace Ndn.C18
+open Ndn Ndn.Svs
+
+/-! ### re-entrancy: the application publishes from inside the missing-data callback; the timer task
+
+`Ndn.Svs.stepX` follows the statements of `sync_handler`, `new_data` and `on_timer` in the order of the source,
+with `next_sync_timing` (`Due`: a steady period / a suppression period / now) and `timer_rst_event` in the state.
+An event `recvCb es ⟨k, raises⟩` is a sync Interest whose missing-data callback — if it fires — calls `new_data()`
+`k` times and then returns or raises; `EvX.recvPub es k` is the returning one.  A state *at rest* (`park s`) is one in
+which the timer task has consumed the reset event and waits for the period matching the protocol state. -/
+
+/-- the vector raises some entry of the local vector (specification of "the callback must fire") -/
+def raises (s : State) (es : List Entry) : Prop := accepted s es ∧ ∃ i, vget s.loc i < vecOf es i
+
+theorem fired_iff_raises (s : State) (es : List Entry) :
+    (step s (.recv es)).2 = [Out.missing] ↔ raises s es := by
+  unfold raises
+  by_cases ha : accepted s es
+  · rw [(callback_iff_raised s es).1]
+    simp only [ha, true_and]
+    constructor
+    · rintro ⟨i, hi⟩; rw [local_is_max s es ha] at hi; exact ⟨i, by omega⟩
+    · rintro ⟨i, hi⟩; exact ⟨i, by rw [local_is_max s es ha]; omega⟩
+  · rw [rejected_unchanged s es ha]; simp [ha]
+
+/-- **stepX_refines_step.** On the events of the atomic model (callbacks that do not touch the instance) the
+    statement-level model, started at rest, takes the decisions of the atomic model — same state, same outputs — and
+    is at rest again: every theorem about `step` is a theorem about the handler statement by statement. -/
+theorem stepX_refines_step (s : State) (e : Ev) :
+    stepX (park s) (EvX.ofEv e) = (park (step s e).1, ⟨(step s e).2, false⟩) := stepX_ofEv s e
+
+/-- **timer_task_at_rest.** After every history of events (receptions with callbacks that publish any number of
+    times or raise, publications, timer expiries) from `start()`, the timer task is parked: the reset event has been
+    consumed and `next_sync_timing` is the suppression period iff the state is SyncSuppression, a steady period
+    otherwise — never a pending "now": no publication is ever left unannounced. -/
+theorem timer_task_at_rest (selfId : Bytes) (seq0 : Nat) (evs : List EvX) :
+    Parked (runX (initX selfId seq0) evs).1 := by
+  have h : ∀ (evs : List EvX) (s : State), Parked (runX (park s) evs).1 := by
+    intro evs
+    induction evs with
+    | nil => intro s; exact parked_park s
+    | cons e r ih =>
+      intro s
+      obtain ⟨s', hs'⟩ := stepX_parked s e
+      simp only [runX]
+      rw [hs']; exact ih s'
+  exact h evs (init selfId seq0)
+
+/-- **recvPub_state_eq_recv_then_publishes.** A reception whose callback publishes `k` times leaves the instance —
+    vector, own sequence number, suppression state, aggregate, timer — in the state of the same reception with an
+    idle callback followed by `k` publications from outside the handler (none if the callback does not fire). -/
+theorem recvPub_state_eq_recv_then_publishes (s : State) (es : List Entry) (cb : Cb) :
+    (stepX (park s) (.recvCb es cb)).1 =
+      (runX (park s) (.recv es ::
+        (if (stepX (park s) (.recv es)).2.outs = [Out.missing] then List.replicate cb.pubs .publish else []))).1 := by
+  have hrun : ∀ (k : Nat) (s : State), (runX (park s) (List.replicate k .publish)).1 = park (pubN k s) := by
+    intro k
+    induction k with
+    | zero => intro s; rfl
+    | succ k ih => intro s; simp only [List.replicate_succ, runX]; rw [stepX_publish]; exact ih _
+  have h0 : stepX (park s) (.recv es) = (park (step s (.recv es)).1, ⟨(step s (.recv es)).2, false⟩) :=
+    stepX_ofEv s (.recv es)
+  simp only [runX]
+  rw [h0, stepX_recvCb]
+  simp only []
+  split
+  · rw [hrun]; cases cb.pubs <;> rfl
+  · rfl
+
+/-- **recvPub_eq_recv_then_publish.** The position of the callback inside the handler is unobservable for the code
+    as it is: receiving a vector with a callback that publishes (once) is observationally the reception with an idle
+    callback followed by a publication — same state (local vector, sequence number, suppression state, aggregate,
+    timer) and the same outputs in the same order: the callback, then the sync Interest with the full vector.
+    When the callback does not fire it is the plain reception. -/
+theorem recvPub_eq_recv_then_publish (s : State) (es : List Entry) :
+    stepX (park s) (.recvPub es 1) =
+      (let a := stepX (park s) (.recv es)
+       if a.2.outs = [Out.missing] then
+         let b := stepX a.1 .publish
+         (b.1, ⟨a.2.outs ++ b.2.outs, false⟩)
+       else a) := by
+  have h0 : stepX (park s) (.recv es) = (park (step s (.recv es)).1, ⟨(step s (.recv es)).2, false⟩) :=
+    stepX_ofEv s (.recv es)
+  simp only [EvX.recvPub]
+  rw [h0, stepX_recvCb]
+  generalize step s (.recv es) = r
+  obtain ⟨s1, o1⟩ := r
+  simp only []
+  split
+  · rename_i hf
+    subst hf
+    rw [stepX_publish]; rfl
+  · rfl
+
+/-- **callback_publish_increments_and_emits_full.** `publish_increments_and_emits_full` for publications made from
+    inside the missing-data callback: when a received vector raises an entry and the callback publishes `k + 1`
+    times (whether it then returns or raises), the own sequence number has grown by `k + 1` and is recorded in the
+    local vector, every other entry is the entry-wise maximum, and **within the same step** — after the callback,
+    before anything else — exactly one sync Interest is emitted, carrying the full (final) local vector; afterwards
+    the instance is in SyncSteady and the timer is that of a fresh steady period with no reset pending. -/
+theorem callback_publish_increments_and_emits_full (s : State) (es : List Entry) (hr : raises s es)
+    (k : Nat) (rs : Bool) :
+    let r := stepX (park s) (.recvCb es ⟨k + 1, rs⟩)
+    r.1.st.selfSeq = s.selfSeq + (k + 1) ∧
+    vget r.1.st.loc s.selfId = s.selfSeq + (k + 1) ∧
+    (∀ i, i ≠ s.selfId → vget r.1.st.loc i = max (vget s.loc i) (vecOf es i)) ∧
+    r.2.outs = [Out.missing, Out.emit r.1.st.loc] ∧ r.2.raised = rs ∧
+    r.1.st.suppress = false ∧ r.1.due = .steady ∧ r.1.rst = false := by
+  have hf := (fired_iff_raises s es).mpr hr
+  obtain ⟨hid, hseq⟩ := step_ids s (.recv es)
+  simp only [pubInc, Nat.add_zero] at hseq
+  intro r
+  have hrr : r = (park (pubN (k + 1) (step s (.recv es)).1),
+      ⟨[Out.missing, Out.emit (pubN (k + 1) (step s (.recv es)).1).loc], rs⟩) := by
+    show stepX (park s) (.recvCb es ⟨k + 1, rs⟩) = _
+    rw [stepX_recvCb]; simp only [hf, if_true]
+  rw [hrr]
+  have hsup := pubN_succ_suppress k (step s (.recv es)).1
+  refine ⟨by simp only [park]; rw [pubN_selfSeq, hseq], ?_, ?_, rfl, rfl, hsup, by simp [park, dueOf, hsup], rfl⟩
+  · have := pubN_own k (step s (.recv es)).1
+    rw [hid, hseq] at this; exact this
+  · intro i hi
+    simp only [park]
+    rw [pubN_other _ _ _ (by rw [hid]; exact hi), local_is_max s es hr.1]
+
+/-- **local_is_max_x.** `local_is_max` in the extended model: after an accepted vector, whatever the callback does,
+    every entry of another node is the entry-wise maximum of its previous value and the received vector; so is the
+    own entry unless the callback fired and published, in which case it is the new own sequence number. -/
+theorem local_is_max_x (s : State) (es : List Entry) (h : accepted s es) (cb : Cb) :
+    let r := stepX (park s) (.recvCb es cb)
+    (∀ i, i ≠ s.selfId → vget r.1.st.loc i = max (vget s.loc i) (vecOf es i)) ∧
+    (¬ (raises s es ∧ cb.pubs ≠ 0) → vget r.1.st.loc s.selfId = max (vget s.loc s.selfId) (vecOf es s.selfId)) ∧
+    (raises s es ∧ cb.pubs ≠ 0 → vget r.1.st.loc s.selfId = s.selfSeq + cb.pubs) := by
+  obtain ⟨hid, hseq⟩ := step_ids s (.recv es)
+  simp only [pubInc, Nat.add_zero] at hseq
+  intro r
+  have hrr : r = stepX (park s) (.recvCb es cb) := rfl
+  rw [stepX_recvCb] at hrr
+  by_cases hf : (step s (.recv es)).2 = [Out.missing]
+  · have hr := (fired_iff_raises s es).mp hf
+    simp only [hf, if_true] at hrr
+    cases hk : cb.pubs with
+    | zero =>
+      rw [hk] at hrr; simp only [] at hrr; rw [hrr]
+      exact ⟨fun i _ => local_is_max s es h i, fun _ => local_is_max s es h _, fun hh => absurd rfl hh.2⟩
+    | succ k =>
+      rw [hk] at hrr; simp only [] at hrr; rw [hrr]
+      refine ⟨fun i hi => ?_, fun hh => absurd ⟨hr, Nat.succ_ne_zero k⟩ hh, fun _ => ?_⟩
+      · simp only [park]; rw [pubN_other _ _ _ (by rw [hid]; exact hi), local_is_max s es h]
+      · have := pubN_own k (step s (.recv es)).1
+        rw [hid, hseq] at this; exact this
+  · have hr : ¬ raises s es := fun hh => hf ((fired_iff_raises s es).mpr hh)
+    simp only [hf, if_false] at hrr; rw [hrr]
+    exact ⟨fun i _ => local_is_max s es h i, fun _ => local_is_max s es h _, fun hh => absurd hh.1 hr⟩
+
+/-- every event of the extended model keeps the state well-formed (it amounts to a history of the atomic model) -/
+theorem wf_stepX (s : State) (e : EvX) (h : WF s) : WF (stepX (park s) e).1.st := by
+  rw [stepX_flat]; exact wf_run s _ h
+
+/-- **local_monotone_x.** No event of the extended model — in particular no callback, however often it publishes
+    and whether or not it raises — ever decreases an entry of the local vector. -/
+theorem local_monotone_x (s : State) (e : EvX) (h : WF s) (i : Bytes) :
+    vget s.loc i ≤ vget (stepX (park s) e).1.st.loc i := by
+  rw [stepX_flat]; exact run_monotone s _ h i
+
+/-- **run_monotone_x.** Over any history of the extended model from `start()` the local vector never decreases:
+    the vector after a longer history dominates the vector after any prefix. -/
+theorem run_monotone_x (selfId : Bytes) (seq0 : Nat) (evs more : List EvX) (i : Bytes) :
+    vget (runX (initX selfId seq0) evs).1.st.loc i ≤ vget (runX (initX selfId seq0) (evs ++ more)).1.st.loc i := by
+  have hw0 : WF (init selfId seq0) := by simp [WF, init, PyDict.keys, vget, PyDict.get?]
+  have happ : ∀ (a b : List EvX) (t : TState), (runX t (a ++ b)).1 = (runX (runX t a).1 b).1 := by
+    intro a
+    induction a with
+    | nil => intro b t; rfl
+    | cons e r ih => intro b t; simp only [List.cons_append, runX]; exact ih b _
+  have hpre : ∀ (a : List EvX) (s : State), WF s → ∃ s', (runX (park s) a).1 = park s' ∧ WF s' := by
+    intro a
+    induction a with
+    | nil => intro s hs; exact ⟨s, rfl, hs⟩
+    | cons e r ih =>
+      intro s hs
+      obtain ⟨s1, h1⟩ := stepX_parked s e
+      have hw1 : WF s1 := by have := wf_stepX s e hs; rw [h1] at this; exact this
+      obtain ⟨s2, h2, hw2⟩ := ih s1 hw1
+      exact ⟨s2, by simp only [runX]; rw [h1]; exact h2, hw2⟩
+  have hmono : ∀ (b : List EvX) (s : State), WF s → vget s.loc i ≤ vget (runX (park s) b).1.st.loc i := by
+    intro b
+    induction b with
+    | nil => intro s _; exact Nat.le_refl _
+    | cons e r ih =>
+      intro s hs
+      obtain ⟨s1, h1⟩ := stepX_parked s e
+      have hw1 : WF s1 := by have := wf_stepX s e hs; rw [h1] at this; exact this
+      have hm := local_monotone_x s e hs i
+      rw [h1] at hm
+      simp only [runX]; rw [h1]
+      exact Nat.le_trans hm (ih s1 hw1)
+  obtain ⟨s', hs', hw'⟩ := hpre evs (init selfId seq0) hw0
+  rw [happ]
+  show vget (runX (park (init selfId seq0)) evs).1.st.loc i ≤ _
+  have : initX selfId seq0 = park (init selfId seq0) := rfl
+  rw [this, hs']
+  exact hmono more s' hw'
+
+/-- **callback_iff_raised_x.** In the extended model the missing-data callback is invoked for a received vector iff
+    that vector is accepted and raises some entry of the local vector; it is invoked at most once per vector,
+    first of everything the step lets the outside see; and the exception of a raising callback propagates exactly
+    when the callback was invoked. -/
+theorem callback_iff_raised_x (s : State) (es : List Entry) (cb : Cb) :
+    let r := stepX (park s) (.recvCb es cb)
+    (Out.missing ∈ r.2.outs ↔ raises s es) ∧ r.2.outs.count Out.missing ≤ 1 ∧
+    (raises s es → r.2.outs.head? = some Out.missing) ∧ (r.2.raised = true ↔ raises s es ∧ cb.raises = true) := by
+  intro r
+  have hrr : r = stepX (park s) (.recvCb es cb) := rfl
+  rw [stepX_recvCb] at hrr
+  by_cases hf : (step s (.recv es)).2 = [Out.missing]
+  · have hr := (fired_iff_raises s es).mp hf
+    simp only [hf, if_true] at hrr
+    cases hk : cb.pubs with
+    | zero => rw [hk] at hrr; simp only [] at hrr; rw [hrr]; simp [hr]
+    | succ k => rw [hk] at hrr; simp only [] at hrr; rw [hrr]; simp [hr]
+  · have hr : ¬ raises s es := fun hh => hf ((fired_iff_raises s es).mpr hh)
+    simp only [hf, if_false] at hrr; rw [hrr]
+    rcases (callback_iff_raised s es).2 with h | h
+    · exact absurd h hf
+    · simp [h, hr]
+
+/-! #### suppression in the extended model -/
+
+open Classical in
+/-- ghost update of the extended model: what has been heard in the current suppression period; publications made
+    by the callback do not change it (they end the period) -/
+noncomputable def heardStepX (s : State) (heard : Bytes → Nat) : EvX → (Bytes → Nat)
+  | .recvCb es _ => heardStep s heard (.recv es)
+  | _ => heard
+
+noncomputable def runGX (t : TState) (heard : Bytes → Nat) : List EvX → TState × (Bytes → Nat)
+  | [] => (t, heard)
+  | e :: r => runGX (stepX t e).1 (heardStepX t.st heard e) r
+
+theorem runGX_fst (t : TState) (heard : Bytes → Nat) (evs : List EvX) :
+    (runGX t heard evs).1 = (runX t evs).1 := by
+  induction evs generalizing t heard with
+  | nil => rfl
+  | cons e r ih => simp only [runGX, runX]; exact ih _ _
+
+theorem heardInv_stepX (s : State) (heard : Bytes → Nat) (e : EvX) (h : HeardInv s heard) :
+    HeardInv (stepX (park s) e).1.st (heardStepX s heard e) := by
+  cases e with
+  | undecodable => exact h
+  | publish => rw [stepX_publish]; exact heardInv_step s heard .publish h
+  | timer => rw [stepX_timer]; exact heardInv_step s heard .timer h
+  | recvCb es cb =>
+    rw [stepX_recvCb]
+    simp only [heardStepX]
+    split
+    · cases cb.pubs with
+      | zero => exact heardInv_step s heard (.recv es) h
+      | succ k =>
+        intro hsup
+        simp only [park, pubN_succ_suppress] at hsup
+        cases hsup
+    · exact heardInv_step s heard (.recv es) h
+
+/-- **suppression_emit_iff_x.** `suppression_emit_iff` over every history of the extended model: when the timer
+    ends a suppression period, a sync Interest carrying the full local vector is emitted iff the local vector is
+    newer in some entry than the merge of the vectors heard in that period; otherwise nothing is emitted. -/
+theorem suppression_emit_iff_x (selfId : Bytes) (seq0 : Nat) (evs : List EvX) :
+    let t := (runGX (initX selfId seq0) (fun _ => 0) evs).1
+    let heard := (runGX (initX selfId seq0) (fun _ => 0) evs).2
+    t.st.suppress = true →
+      ((stepX t .timer).2.outs = [Out.emit t.st.loc] ↔ ∃ k, heard k < vget t.st.loc k) ∧
+      ((stepX t .timer).2.outs = [Out.emit t.st.loc] ∨ (stepX t .timer).2.outs = []) := by
+  have hw0 : WF (init selfId seq0) := by simp [WF, init, PyDict.keys, vget, PyDict.get?]
+  have hgen : ∀ (evs : List EvX) (s : State) (heard : Bytes → Nat), WF s → HeardInv s heard →
+      ∃ s', (runGX (park s) heard evs).1 = park s' ∧ WF s' ∧ HeardInv s' (runGX (park s) heard evs).2 := by
+    intro evs
+    induction evs with
+    | nil => intro s heard hw hi; exact ⟨s, rfl, hw, hi⟩
+    | cons e r ih =>
+      intro s heard hw hi
+      obtain ⟨s1, h1⟩ := stepX_parked s e
+      have hw1 : WF s1 := by have := wf_stepX s e hw; rw [h1] at this; exact this
+      have hi1 : HeardInv s1 (heardStepX s heard e) := by
+        have := heardInv_stepX s heard e hi; rw [h1] at this; exact this
+      obtain ⟨s2, h2, hw2, hi2⟩ := ih s1 _ hw1 hi1
+      refine ⟨s2, ?_, hw2, ?_⟩
+      · simp only [runGX]; rw [h1]; exact h2
+      · simp only [runGX]; rw [h1]; exact hi2
+  intro t heard hsup
+  obtain ⟨s', hs', hw', hi'⟩ := hgen evs (init selfId seq0) (fun _ => 0) hw0 (by simp [HeardInv, init])
+  have ht : t = park s' := hs'
+  rw [ht] at hsup ⊢
+  rw [stepX_timer]
+  exact suppression_emit_of_inv s' heard hw' hi' hsup
+
+/-- **callback_before_bookkeeping_delays_announcement.** The variant of the handler that invokes the callback right
+    after the merge loop, *before* its own timer bookkeeping (`stepXEarly`), is observably different whenever the
+    callback publishes: the publications are recorded (own sequence number and own entry grown by `k + 1`) but the
+    handler's bookkeeping then overwrites what `new_data()` armed — nothing but the callback leaves the step, no
+    sync Interest, and the timer task is parked on a whole suppression or steady period — whereas the code as it is
+    emits the full vector within the step.  So `recvPub = recv ; publish` fails for the variant. -/
+theorem callback_before_bookkeeping_delays_announcement (s : State) (es : List Entry) (hr : raises s es) (k : Nat) :
+    let bad := stepXEarly (park s) (.recvPub es (k + 1))
+    let good := stepX (park s) (.recvPub es (k + 1))
+    bad.2.outs = [Out.missing] ∧ (∀ v, Out.emit v ∉ bad.2.outs) ∧
+    bad.1.st.selfSeq = s.selfSeq + (k + 1) ∧ vget bad.1.st.loc s.selfId = s.selfSeq + (k + 1) ∧
+    bad.1.rst = false ∧ bad.1.due ≠ .now ∧
+    good.2.outs = [Out.missing, Out.emit good.1.st.loc] ∧ bad ≠ good := by
+  have hf := (fired_iff_raises s es).mpr hr
+  obtain ⟨s', hb, h1, h2⟩ := stepXEarly_recvPub s es k hf
+  have hg := callback_publish_increments_and_emits_full s es hr k false
+  intro bad good
+  have hbad : bad = (park s', ⟨[Out.missing], false⟩) := hb
+  have hgo : good.2.outs = [Out.missing, Out.emit good.1.st.loc] := hg.2.2.2.1
+  refine ⟨by rw [hbad], by rw [hbad]; simp, by rw [hbad]; exact h1, by rw [hbad]; exact h2, by rw [hbad]; rfl,
+    by rw [hbad]; exact dueOf_ne_now s', hgo, ?_⟩
+  intro he
+  rw [← he, hbad] at hgo
+  simp at hgo
+
+/-! #### a re-entrant `new_data()` that does not reset `self.state` is unobservable -/
+
+/-- the aggregate never claims more for this node than it has produced (over-claiming vectors are rejected) -/
+def AggInv (s : State) : Prop := vget s.agg s.selfId ≤ s.selfSeq
+
+theorem aggInv_step (s : State) (e : Ev) (h : AggInv s) : AggInv (step s e).1 := by
+  cases e with
+  | undecodable => exact h
+  | timer => simp only [step]; split <;> exact h
+  | publish => unfold AggInv at h ⊢; simp only [step]; omega
+  | recv es =>
+    by_cases ha : accepted s es
+    · obtain ⟨rsv, hb, hs⟩ := step_recv_accepted s es ha
+      have hr := buildRsv_some _ _ _ _ _ hb
+      have hrv : ∀ k, vget rsv k = vecOf es k := fun k => by rw [hr.1 k]; rfl
+      have hnd := hr.2 (by simp [PyDict.keys])
+      have hle : vecOf es s.selfId ≤ s.selfSeq :=
+        vecOfF_self_le s.selfId s.selfSeq es (fun _ => 0) (Nat.zero_le _) ha.2
+      rw [hs]; unfold AggInv
+      rw [(afterBuild_ids s rsv).1, (afterBuild_ids s rsv).2]
+      unfold afterBuild; simp only []
+      split
+      · split
+        · simp only []; rw [hrv]; exact hle
+        · simp only []; rw [aggregate_vget, lmax_eq_vget rsv hnd, hrv]; unfold AggInv at h; omega
+      · exact h
+    · rw [rejected_unchanged s es ha]; exact h
+
+theorem aggInv_run (s : State) (evs : List Ev) (h : AggInv s) : AggInv (run s evs).1 := by
+  induction evs generalizing s with
+  | nil => exact h
+  | cons e r ih => simp only [run]; exact ih _ (aggInv_step s e h)
+
+/-- every history of the extended model from a well-formed state at rest ends in a well-formed state at rest -/
+theorem runX_reach (evs : List EvX) (s : State) (hw : WF s) (ha : AggInv s) :
+    ∃ s', (runX (park s) evs).1 = park s' ∧ WF s' ∧ AggInv s' := by
+  induction evs generalizing s with
+  | nil => exact ⟨s, rfl, hw, ha⟩
+  | cons e r ih =>
+    have h1 := stepX_flat s e
+    obtain ⟨s2, h2, hw2, ha2⟩ := ih _ (wf_run s (flat s e) hw) (aggInv_run s (flat s e) ha)
+    exact ⟨s2, by simp only [runX]; rw [h1]; exact h2, hw2, ha2⟩
+
+/-- one step: from a well-formed state at rest the variant does exactly what the code does -/
+theorem stepXKeep_eq_stepX (s : State) (hw : WF s) (ha : AggInv s) (e : EvX) :
+    stepXKeep (park s) e = stepX (park s) e := by
+  cases e with
+  | undecodable => rfl
+  | publish => rfl
+  | timer => rfl
+  | recvCb es cb =>
+    obtain ⟨r, hr⟩ := handler0_parked s es
+    simp only [stepXKeep, stepX, stepWith]
+    rw [handlerKeep_eq, handler_eq, hr]
+    simp only []
+    by_cases hf : (step s (.recv es)).2 = [Out.missing]
+    · simp only [hf, if_true]
+      cases cb.pubs with
+      | zero => rfl
+      | succ k =>
+        simp only [callbackKeep_succ, callback_succ, settle, if_true]
+        have hs1 : WF (step s (.recv es)).1 := wf_step s _ hw
+        have ha1 : AggInv (step s (.recv es)).1 := aggInv_step s _ ha
+        have hwp : WF (pubN (k + 1) (step s (.recv es)).1) := by
+          rw [← run_replicate_publish]; exact wf_run _ _ hs1
+        have hn : necessary (pubN (k + 1) (step s (.recv es)).1).loc (pubN (k + 1) (step s (.recv es)).1).agg
+            = true := by
+          rw [necessary_iff _ _ hwp.1]
+          refine ⟨(step s (.recv es)).1.selfId, ?_⟩
+          rw [pubN_agg, pubN_own]
+          unfold AggInv at ha1; omega
+        rw [fire_keep _ _ (pubN_succ_suppress k _) hn]
+    · simp only [hf, if_false]
+
+/-- **reentrant_state_reset_unobservable.** Whether a `new_data()` made from inside the callback resets `self.state`
+    is unobservable: after any history from `start()`, the variant that leaves the protocol state alone (and only
+    rearms the timer) takes, on every event, exactly the step the code takes — the timer fires at once either way,
+    and the end-of-suppression test it then runs always finds the freshly published own entry newer than the
+    aggregate, because over-claiming vectors never reach the aggregate.  (This is why the corresponding mutation of
+    the code is not a defect and is not reported by the check.) -/
+theorem reentrant_state_reset_unobservable (selfId : Bytes) (seq0 : Nat) (evs : List EvX) (e : EvX) :
+    stepXKeep (runX (initX selfId seq0) evs).1 e = stepX (runX (initX selfId seq0) evs).1 e := by
+  obtain ⟨s', hs', hw', ha'⟩ := runX_reach evs (init selfId seq0)
+    (by simp [WF, init, PyDict.keys, vget, PyDict.get?]) (by simp [AggInv, init, vget, PyDict.get?])
+  have : initX selfId seq0 = park (init selfId seq0) := rfl
+  rw [this, hs']
+  exact stepXKeep_eq_stepX s' hw' ha' e
+
+/-- **stepXB_refines.** The statement-level handler on the bytes of the name component is the statement-level model
+    on the decoded entries; bytes the decoder rejects with a class the handler catches change nothing, and the
+    other classes propagate with the state (timer included) untouched. -/
+theorem stepXB_refines (t : TState) (comp : Bytes) (cb : Cb) :
+    (∃ es, decodeVector comp = some es ∧
+      stepXB t (.raw comp cb) = ((stepX t (.recvCb es cb)).1, .ok (stepX t (.recvCb es cb)).2)) ∨
+    (∃ e, decodeVectorE comp = .error e ∧ (e = .decodeError ∨ e = .indexError) ∧
+      stepXB t (.raw comp cb) = (t, .ok ⟨[], false⟩)) ∨
+    (∃ e, decodeVectorE comp = .error e ∧ (e = .structError ∨ e = .valueError ∨ e = .typeError) ∧
+      stepXB t (.raw comp cb) = (t, .error e)) := by
+  rcases stepBytes_spec t.st comp with ⟨es, h1, _⟩ | ⟨x, h1, h2, _⟩ | ⟨x, h1, h2, _⟩
+  · left; refine ⟨es, h1, ?_⟩
+    rw [decodeVector_some] at h1; simp [stepXB, h1]
+  · right; left; refine ⟨x, h1, h2, ?_⟩
+    rcases h2 with rfl | rfl <;> simp [stepXB, h1, caught, Gen.C18.caught, Gen.C18.catchAll]
+  · right; right; refine ⟨x, h1, h2, ?_⟩
+    rcases h2 with rfl | rfl | rfl <;> simp [stepXB, h1, caught, Gen.C18.caught, Gen.C18.catchAll]
+
+/-! non-vacuity and the concrete counterexample -/
+
+/-- /n0 hears {/n1:1} with a callback that publishes once: the code as it is emits {/n0:1, /n1:1} in the same step
+    and ends in a fresh steady period … -/
+example : stepX (initX [1] 0) (.recvPub [(some [2], some 1)] 1) =
+    ({ st := { selfId := [1], selfSeq := 1, loc := [([1], 1), ([2], 1)], agg := [([2], 1)], suppress := false },
+       due := .steady, rst := false },
+     ⟨[Out.missing, Out.emit [([1], 1), ([2], 1)]], false⟩) := by decide
+/-- … the variant records the publication, emits nothing and sits in a suppression period (the seeded change
+    C18-6 on the same input) -/
+example : stepXEarly (initX [1] 0) (.recvPub [(some [2], some 1)] 1) =
+    ({ st := { selfId := [1], selfSeq := 1, loc := [([1], 1), ([2], 1)], agg := [([2], 1)], suppress := true },
+       due := .sup, rst := false },
+     ⟨[Out.missing], false⟩) := by decide
+/-- a vector that names no unknown node and is nowhere outdated: the variant waits a whole steady period -/
+example : (stepXEarly (park { selfId := [1], selfSeq := 0, loc := [([1], 0), ([2], 1)], agg := [], suppress := false })
+    (.recvPub [(some [1], some 0), (some [2], some 3)] 2)).1.due = .steady := by decide
+example : raises (init [1] 0) [(some [2], some 1)] := by
+  refine ⟨⟨by simp, ?_⟩, [2], by decide⟩
+  rintro ⟨q, hm, _, _⟩; simp [init] at hm
+/-- three publications inside one callback during a suppression period, the callback then raises: one Interest with
+    the final vector, the exception propagates, steady afterwards -/
+example :
+    (runX (initX [1] 5) [.recv [(some [2], some 4)], .timer, .recv [(some [2], some 1)],
+        .recvCb [(some [2], some 9)] ⟨3, true⟩]).2 =
+      [⟨[Out.missing], false⟩, ⟨[Out.emit [([1], 5), ([2], 4)]], false⟩, ⟨[], false⟩,
+       ⟨[Out.missing, Out.emit [([1], 8), ([2], 9)]], true⟩] := by decide
 
 end Ndn.C18
